@@ -41,13 +41,34 @@ type clock struct {
 	seq   uint64
 	q     timerHeap
 	fired int
+	same  []*timerEv
 }
 
 func (c *clock) pending() bool         { return len(c.q) > 0 }
 func (c *clock) nextAt() time.Duration { return c.q[0].at }
 
 func (c *clock) fireNext(s *Sim) {
-	e := heap.Pop(&c.q).(*timerEv)
+	// timers due at the same simulated instant may fire in any order: a seeded choice
+	at := c.q[0].at
+	same := c.same[:0]
+	for _, e := range c.q {
+		if e.at == at {
+			same = push(same, e)
+		}
+	}
+	c.same = same
+	var e *timerEv
+	if len(same) > 1 {
+		for i := 1; i < len(same); i++ { // insertion sort by seq: canonical order for the choice
+			for j := i; j > 0 && same[j].seq < same[j-1].seq; j-- {
+				same[j], same[j-1] = same[j-1], same[j]
+			}
+		}
+		e = same[s.Sched.choose(len(same), nil)]
+		heap.Remove(&c.q, e.idx)
+	} else {
+		e = heap.Pop(&c.q).(*timerEv)
+	}
 	if e.at > c.now {
 		c.now = e.at
 	}
